@@ -16,6 +16,7 @@ mod git_commit_parser;
 mod pos_conv;
 // --- harness ---
 mod common;
+mod c01_pattern;
 mod c18;
 mod c14;
 mod c08;
@@ -86,6 +87,7 @@ fn main() {
         "C08" => c08::run(&ctx),
         "C14" => c14::run(&ctx),
         "C18" => c18::run(&ctx),
+        "C01P" => c01_pattern::run(&ctx),
         _ => {
             eprintln!("unknown property {}", prop);
             std::process::exit(2);
